@@ -104,6 +104,14 @@ def processLine (st : St) (line : String) : IO St := do
             st := { st with stats := st.stats.bump "prefix_pool_hyp_holds" }
           else if hyp = "#pool-hyp-fails" then
             st := { st with stats := st.stats.bump "prefix_pool_hyp_fails" }
+          else if hyp = "#methods-hyp-holds" then
+            st := { st with stats := st.stats.bump "prefix_methods_hyp_holds" }
+          else if hyp = "#methods-hyp-fails" then
+            st := { st with stats := st.stats.bump "prefix_methods_hyp_fails" }
+          else if hyp = "#whole-parse-covered" then
+            st := { st with stats := st.stats.bump "whole_parse_theorem_applies" }
+          else if hyp = "#whole-parse-open" then
+            st := { st with stats := st.stats.bump "whole_parse_theorem_open" }
           else
             IO.println s!"PROPFAIL case={st.caseId} clause=shape-hypothesis feature={hyp} op={(opS.take 400).toString}"
             st := { st with stats := st.stats.bump "propfail" }
